@@ -109,6 +109,60 @@ theorem flows_interpret_code_conversions :
         some (bankPart (precompileTokenIn .externalOwned g s n))) := by
   refine ⟨?_, ?_, ?_, ?_, ?_, ?_, ?_, ?_, ?_, ?_, ?_, ?_, ?_⟩ <;> intros <;> rfl
 
+open FxVerif.Gen.C04 in
+/-- **translator tie for the composite functions**: the order in which `BridgeTokenToBaseCoin`, `BaseCoinToBridgeToken`,
+`IBCCoinToEvm` call the money-moving functions is regenerated and INTERPRETED — the composition is the model's flow; the
+outgoing pool moves `amount.Add(fee)`; and the IBC composites of the model (`depositIbc`: `SendToFxExecuted` →
+`transferIBCHandler`; `xibc`: the precompile's `ibcTransfer`) run base coin → voucher → ibc `Transfer` in the source order
+of those two functions -/
+theorem composites_follow_code_order :
+    (∀ k g c h n, composeFlow (FCall.bridgeFlow k g c h n true) bridgeTokenToBaseCoin_calls = some (bridgeTokenToBaseCoin k g c h n)) ∧
+    (∀ k g c h n, composeFlow (FCall.bridgeFlow k g c h n false) baseCoinToBridgeToken_calls = some (baseCoinToBridgeToken k g c h n)) ∧
+    (∀ k g h n, composeFlow (FCall.ibcInFlow k g h n) ibcCoinToEvm_calls = some (ibcCoinToBaseCoin g h n ++ convertCoin k g h h n)) ∧
+    addToOutgoingPool_calls = [.baseCoinToBridgeToken, .addUnbatchedTx] ∧ addToOutgoingPool_movesAmountPlusFee = true ∧
+    sendToFxExecuted_calls = [.bridgeTokenToBaseCoin, .transferIBCHandler, .baseCoinToEvm] ∧
+    (∀ cfg s c g u n, step3 cfg s (.depositIbc c g u n) =
+      (match step cfg s.s2.base (.deposit c g u n false) with
+       | .error e => .error e
+       | .ok b1 =>
+         match runIbcCalls cfg g u n transferIBCHandler_calls b1 with
+         | .error e => .error e
+         | .ok b3 => .ok { setBase s b3 with ibcOut := bump s.ibcOut g n })) ∧
+    (∀ cfg s g u n kp, 0 < n → cfg.kind g = some kp → step3 cfg s (.xibc g u n) =
+      (match run s.s2.base (precompileTokenIn kp g (U u) n) with
+       | .error e => .error e
+       | .ok b1 =>
+         match runIbcCalls cfg g u n precompileIbcTransfer_calls b1 with
+         | .error e => .error e
+         | .ok b3 => .ok { setBase s b3 with ibcOut := bump s.ibcOut g n })) := by
+  refine ⟨?_, ?_, ?_, rfl, rfl, rfl, ?_, ?_⟩
+  · intro k g c h n; cases k <;> rfl
+  · intro k g c h n; cases k <;> rfl
+  · intro k g h n; simp [composeFlow, FCall.ibcInFlow, ibcCoinToEvm_calls]
+  · intro cfg s c g u n
+    simp only [step3, transferIBCHandler_calls, runIbcCalls]
+    cases step cfg s.s2.base (.deposit c g u n false) with
+    | error e => rfl
+    | ok b1 =>
+      simp only []
+      cases stepIbc cfg b1 (.toIbc g u n) with
+      | error e => rfl
+      | ok b2 =>
+        simp only []
+        cases stepIbc cfg b2 (.xfer g u n) <;> rfl
+  · intro cfg s g u n kp hn hk
+    have hn0 : ¬ n = 0 := by omega
+    simp only [step3, precompileIbcTransfer_calls, runIbcCalls, hn0, ↓reduceIte, hk]
+    cases run s.s2.base (precompileTokenIn kp g (U u) n) with
+    | error e => rfl
+    | ok b1 =>
+      simp only []
+      cases stepIbc cfg b1 (.toIbc g u n) with
+      | error e => rfl
+      | ok b2 =>
+        simp only []
+        cases stepIbc cfg b2 (.xfer g u n) <;> rfl
+
 /-- the interpretation is not vacuous: a send to the erc20 module account (`types.ModuleName`) has no meaning inside the
 crosschain keeper's `ConversionCoin`, and an unknown expression stops the interpretation -/
 example : interp (envConversion 1 0 (U 0) true) 5 [⟨.sendAccToMod, .holder, .types_ModuleName, .coin⟩] = none ∧
